@@ -98,11 +98,12 @@ def draw_dip(rng, i):
 def generate(rng, tier, shard, nshards):
     n = gens.budget(600, tier, nshards)
     for i in range(n):
-        # every 7th case: both sensors in units far from the usual ones (a common factor of 1e-12 .. 1e12: tesla, raw counts); their RATIO stays moderate -
-        # estimators that weigh the raw vectors (Davenport, QUEST) cannot resolve one observation that is 1e-16 of the other
+        # every 7th case: both sensors in units far from the usual ones (a common factor of 1e-12 .. 1e12: tesla, raw counts); another 7th: each sensor
+        # in its own far-off unit (independent factors: the property holds "whatever the magnitudes of the two measured vectors")
         ext = gens.logu(rng, 1e-12, 1e12) if i % 7 == 3 else 1.0
+        ext_m = ext * (gens.logu(rng, 1e-12, 1e12) if i % 7 == 5 else 1.0)
         yield Case("all", "general", q=gens.general_position(rng), dip=draw_dip(rng, i), sa=ext * gens.logu(rng, 1e-2, 1e2),
-                   sm=ext * gens.logu(rng, 1e-2, 1e3), seed=int(rng.integers(2**31)))
+                   sm=ext_m * gens.logu(rng, 1e-2, 1e3), seed=int(rng.integers(2**31)))
     for i in range(gens.budget(240, tier, nshards)):
         yield Case("free", "generic", q=gens.unit(rng), dip=draw_dip(rng, i), sa=gens.logu(rng, 1e-2, 1e2),
                    sm=gens.logu(rng, 1e-2, 1e3), seed=int(rng.integers(2**31)))
